@@ -4,6 +4,7 @@ import (
 	"fmt"
 	"sort"
 	"strings"
+	"unicode"
 
 	"verifharness/run"
 )
@@ -34,7 +35,12 @@ type Opts struct {
 	CRLF               bool   // some files are written with \r\n line ends
 	CStyleArrays       bool   // parameters may be written `int samples[]`
 	HotBias            int    // chance in 10 that a variable gets the "hot" type / a call on it targets the hot method (C05: many sites of one method)
-	ExoticNames        bool   // some method names contain non-ASCII letters or '$' (legal Java identifiers)
+	TwoTypesPerFile    bool   // some files declare a second, package-private top-level type after the first (consumers must use File.Types())
+	CaseTwinClasses    bool   // two classes of one package whose names differ only in letter case (Url / URL), sharing a method name
+	AnonClasses        bool   // some object creations carry an anonymous class body with (call-free) methods
+	AccessorNames      bool   // some methods are named like variables of the project (`Repo repo()`, called as `repo()`)
+	DeepLayout         bool   // one project in ten lies 35+ directories below the analysed root
+	ExoticNames        bool   // some method AND class (= file) names contain non-ASCII letters or '$' (legal Java identifiers)
 	FieldsFirst        bool   // fields are declared before the constructors and methods (receivers "declared at an earlier point")
 }
 
@@ -69,6 +75,7 @@ type genCtx struct {
 	mid     int
 	hot     *typeInfo
 	hotM    string
+	twinOf  map[string]*typeInfo   // full name of a case-twin class -> the class it twins
 	forced  map[*typeInfo][]string // single-type imports a file must carry (they decide what a simple name means)
 }
 
@@ -108,6 +115,19 @@ func (g *genCtx) methodName(cls string, allowDup bool) string {
 	r := g.r
 	for try := 0; ; try++ {
 		n := g.ident(verbWords, true)
+		if g.o.AccessorNames && r.Chance(1, 8) && !g.usedM[cls+"."+"<acc>"] {
+			// accessor style: the method is named like a field / parameter / local (a call `repo()` is still a call of
+			// the enclosing class's method, whatever variables of that name are in scope)
+			n = r.Pick(varWords)
+			key := n
+			if !g.o.UniqueMethodNames {
+				key = cls + "." + n
+			}
+			if !g.usedM[key] {
+				g.usedM[key] = true
+				return n
+			}
+		}
 		if g.o.ExoticNames && r.Chance(1, 6) {
 			n = r.Pick(exoticVerbs)
 		}
@@ -142,8 +162,11 @@ func Generate(r *run.Rand, o Opts) *Project {
 	if !o.Overloads {
 		o.UniqueMethodNames = true
 	}
-	g := &genCtx{r: r, o: o, byName: map[string][]*typeInfo{}, usedM: map[string]bool{}}
+	g := &genCtx{r: r, o: o, byName: map[string][]*typeInfo{}, usedM: map[string]bool{}, twinOf: map[string]*typeInfo{}}
 	p := &Project{Layout: r.Pick([]string{"flat", "nested", "maven"})}
+	if o.DeepLayout && r.Chance(1, 10) {
+		p.Layout = "deep" // the sources lie 35+ directories below the root (a module tree of a big monorepo)
+	}
 	if o.FixedLayout != "" {
 		p.Layout = o.FixedLayout
 	}
@@ -168,6 +191,17 @@ func Generate(r *run.Rand, o Opts) *Project {
 				if !usedCls[pk+"."+cand] && len(g.byName[cand]) == 0 {
 					name = cand
 				}
+			}
+			if o.CaseTwinClasses && i > 0 && r.Chance(1, 5) {
+				prev := g.types[r.Intn(len(g.types))]
+				if tw := caseTwinName(prev.Simple); tw != prev.Simple && !usedCls[prev.Pkg+"."+tw] && len(g.byName[tw]) == 0 {
+					name, pk = tw, prev.Pkg
+					g.twinOf[pk+"."+tw] = prev
+				}
+			}
+			if o.ExoticNames && r.Chance(1, 10) {
+				// legal Java type (and therefore file) names outside [A-Za-z0-9_]
+				name = r.Pick([]string{"Überweisung", "Prüfer", "Gebühr", "Konto$Mapper", "订单", "Café", "Ünit"}) + r.Pick([]string{"", "", "Impl", "Service"})
 			}
 			if o.SameNameTwoPkgs && i > 0 && r.Chance(1, 4) {
 				// reuse the simple name of an earlier type in a different package
@@ -207,6 +241,44 @@ func Generate(r *run.Rand, o Opts) *Project {
 	for _, ti := range g.types {
 		g.skeleton(ti)
 	}
+	// a case-twin class shares a method name with the class it twins (p.Url.parse / p.URL.parse)
+	for _, ti := range g.types {
+		orig := g.twinOf[ti.Pkg+"."+ti.Simple]
+		if orig == nil {
+			continue
+		}
+		var from, to []*Method
+		for _, m := range orig.Decl.Methods() {
+			if !m.IsCtor {
+				from = append(from, m)
+			}
+		}
+		for _, m := range ti.Decl.Methods() {
+			if !m.IsCtor {
+				to = append(to, m)
+			}
+		}
+		if len(from) == 0 || len(to) == 0 {
+			continue
+		}
+		src := from[r.Intn(len(from))]
+		if g.hot == orig && g.hotM != "" {
+			for _, m := range from {
+				if m.Name == g.hotM {
+					src = m
+				}
+			}
+		}
+		clash := false
+		for _, m := range to {
+			if m.Name == src.Name {
+				clash = true
+			}
+		}
+		if !clash {
+			to[r.Intn(len(to))].Name = src.Name
+		}
+	}
 	if g.hot != nil {
 		var cands []string
 		for _, m := range g.hot.Decl.Methods() {
@@ -223,8 +295,57 @@ func Generate(r *run.Rand, o Opts) *Project {
 			g.bodies(ti)
 		}
 	}
+	if o.TwoTypesPerFile {
+		// move some types into the file of another type of the same package (declared after it, package-private)
+		for i := len(g.types) - 1; i > 0; i-- {
+			guest := g.types[i]
+			if !r.Chance(1, 4) || len(guest.File.Extra) > 0 || guest.File.Type != guest.Decl {
+				continue
+			}
+			var hosts []*typeInfo
+			for _, h := range g.types[:i] {
+				if h.Pkg == guest.Pkg && h.File.Type == h.Decl {
+					hosts = append(hosts, h)
+				}
+			}
+			if len(hosts) == 0 {
+				continue
+			}
+			host := hosts[r.Intn(len(hosts))]
+			var mods []string
+			for _, mo := range guest.Decl.Modifiers {
+				if mo != "public" {
+					mods = append(mods, mo)
+				}
+			}
+			guest.Decl.Modifiers = mods
+			host.File.Extra = append(host.File.Extra, guest.Decl)
+			old := guest.File
+			guest.File = host.File
+			var keep []*File
+			for _, f := range p.Files {
+				if f != old {
+					keep = append(keep, f)
+				}
+			}
+			p.Files = keep
+		}
+	}
 	for _, ti := range g.types {
 		g.imports(ti)
+	}
+	for _, f := range p.Files {
+		// a file hosting two types got the imports of both: each path once
+		seen := map[string]bool{}
+		var is []Import
+		for _, im := range f.Imports {
+			k := fmt.Sprint(im.Static, im.Path)
+			if !seen[k] {
+				seen[k] = true
+				is = append(is, im)
+			}
+		}
+		f.Imports = is
 	}
 	// paths
 	usedPath := map[string]bool{}
@@ -253,6 +374,30 @@ func Generate(r *run.Rand, o Opts) *Project {
 	return p
 }
 
+// caseTwinName: OrderService -> OrderSERVICE, Url -> URL (same letters, other case in the last camel-case word).
+func caseTwinName(name string) string {
+	j := 0
+	for k := len(name) - 1; k > 0; k-- {
+		if name[k] >= 'A' && name[k] <= 'Z' {
+			j = k
+			break
+		}
+	}
+	if j+1 >= len(name) {
+		return name
+	}
+	tail := name[j+1:]
+	for _, c := range tail {
+		if c > 127 {
+			return name
+		}
+	}
+	if up := strings.ToUpper(tail); up != tail {
+		return name[:j+1] + up
+	}
+	return name
+}
+
 func pathFor(layout, pkg, file string, test bool) string {
 	dir := strings.ReplaceAll(pkg, ".", "/")
 	switch layout {
@@ -266,6 +411,11 @@ func pathFor(layout, pkg, file string, test bool) string {
 			return "src/test/java/" + dir + "/" + file
 		}
 		return dir + "/" + file
+	case "deep":
+		if test {
+			return deepPrefix + "src/test/java/" + dir + "/" + file
+		}
+		return deepPrefix + "src/main/java/" + dir + "/" + file
 	default:
 		if test {
 			return "src/test/java/" + dir + "/" + file
@@ -274,16 +424,24 @@ func pathFor(layout, pkg, file string, test bool) string {
 	}
 }
 
+var deepPrefix = func() string {
+	var sb strings.Builder
+	for i := 1; i <= 33; i++ {
+		sb.WriteString(fmt.Sprintf("m%d/", i))
+	}
+	return sb.String()
+}()
+
 func (g *genCtx) annotation(pool []string) Annotation {
 	r := g.r
 	a := Annotation{Name: r.Pick(pool), Form: "marker"}
 	switch r.Intn(5) {
 	case 0:
 		a.Form = "single"
-		a.Value = r.Pick([]string{"\"orders\"", "42", "Mode.FAST", "Order.class", "{\"a\",\"b\"}", "\"x-y\""})
+		a.Value = r.Pick([]string{"\"orders\"", "42", "Mode.FAST", "Order.class", "{\"a\",\"b\"}", "\"x-y\"", "\"a<b>&c\"", "\"[^\\u003c\\u003e\\u0026]*\"", "\"tab\\there\""})
 	case 1:
 		a.Form = "pairs"
-		a.Pairs = [][2]string{{"name", r.Pick([]string{"\"t_order\"", "\"main\""})}}
+		a.Pairs = [][2]string{{"name", r.Pick([]string{"\"t_order\"", "\"main\"", "\"<T>&\"", "\"\\u003cb\\u003e\""})}}
 		if r.Bool() {
 			a.Pairs = append(a.Pairs, [2]string{"size", fmt.Sprint(r.Intn(100))})
 		}
@@ -571,7 +729,7 @@ func (g *genCtx) params(ti *typeInfo, n int) []Param {
 func (g *genCtx) imports(ti *typeInfo) {
 	r := g.r
 	f := ti.File
-	need := map[string]string{} // simple -> full
+	need := map[string]string{}      // simple -> full
 	ambiguous := map[string]string{} // simple name declared in >= 2 other packages -> the package whose wildcard import makes it legal
 	addType := func(text string) {
 		for _, tok := range splitIdents(text) {
@@ -698,7 +856,7 @@ func splitIdents(s string) []string {
 	var out []string
 	cur := ""
 	for _, c := range s {
-		if c == '_' || c >= 'a' && c <= 'z' || c >= 'A' && c <= 'Z' || c >= '0' && c <= '9' {
+		if c == '_' || c == '$' || c >= 'a' && c <= 'z' || c >= 'A' && c <= 'Z' || c >= '0' && c <= '9' || c >= 0x80 && unicode.IsLetter(c) {
 			cur += string(c)
 		} else {
 			if cur != "" {
@@ -817,7 +975,11 @@ func SelfCheck(p *Project) error {
 			}
 			return string(rs[col:col+len([]rune(name))]) == name
 		}
-		for _, m := range f.Type.Methods() {
+		var allMethods []*Method
+		for _, t := range f.Types() {
+			allMethods = append(allMethods, t.Methods()...)
+		}
+		for _, m := range allMethods {
 			if !at(m.NameLine, m.NameCol, m.Name) {
 				return fmt.Errorf("%s: method %s not at %d:%d", f.RelPath, m.Name, m.NameLine, m.NameCol)
 			}
